@@ -20,6 +20,11 @@ func New(ctx context.Context, cfg config.Config) (*db, error) {
 
 	container := di.New(cfg)
 
+	// The container builds its components lazily and without synchronisation:
+	// build all of them now, before the database is handed to concurrent callers.
+	container.Store()
+	container.Transaction()
+
 	container.Pool().Run(ctx)
 	deleteFiles, err := container.Core().Load(ctx)
 	if err != nil {
